@@ -244,7 +244,7 @@ def mon_expect(run, script, il, iab, ml):
         cbs = [c for f in irqs for c in cb_entries(f.get('cb'))]
         last = fields(ops[-1]) if ops and not ops[-1].startswith('chip ') else None
         dumps = [dump_of(l) for l in ops if l.startswith('chip ')]
-        if kind == 'fskrx' and P in ('C03', 'C07', 'C08'):
+        if kind == 'fskrx' and P in ('C03', 'C07', 'C08', 'C11'):
             run.cov['monitor_checks'] += 1
             delivered, data = args[0] == '1', ('' if args[1] == '-' else args[1])
             rx = [c for c in cbs if c['kind'] == 'rx']
@@ -262,9 +262,20 @@ def mon_expect(run, script, il, iab, ml):
                 h = handle_of(last)
                 if h.get('exp') != '0' or h.get('rcv') != '0':
                     run.violation('per-packet state not reset after FSK/OOK packet: exp=%s rcv=%s' % (h.get('exp'), h.get('rcv')), script)
-        elif kind == 'fsktx_begin' and P in ('C04', 'C07'):
+        elif kind == 'fskfault' and P in ('C11',):
+            # a packet during whose reception transfers failed: it may be lost, but it is never
+            # delivered with bytes the handler could not read, and never twice
+            run.cov['monitor_checks'] += 1
+            data = '' if args[0] == '-' else args[0]
+            rx = [c for c in cbs if c['kind'] == 'rx']
+            if len(rx) > 1:
+                run.violation('FSK/OOK packet delivered %d times after a failed transfer' % len(rx), script)
+            elif rx and (rx[0]['data'] != data or rx[0]['len'] != len(data) // 2):
+                run.violation('FSK/OOK packet delivered incomplete or wrong after a failed transfer: expected %d bytes, got %d' % (len(data) // 2, rx[0]['len']), script,
+                              {'expected': data, 'got': rx[0]['data']})
+        elif kind == 'fsktx_begin' and P in ('C04', 'C07', 'C11'):
             run._fsktx_from = i
-        elif kind == 'fsktx_end' and P in ('C04', 'C07'):
+        elif kind == 'fsktx_end' and P in ('C04', 'C07', 'C11'):
             run.cov['monitor_checks'] += 1
             leave = args[0] == '1'
             frames = ['' if a == '-' else a for a in args[1:]]
